@@ -35,7 +35,7 @@ CLAIMS['C02'] = {
 }
 CLAIMS['C03'] = {
     'text': 'Every leaf proof runs with CBMC pointer checks on an input window that is an exact-size heap object (so a read at or beyond end() is an out-of-object read whatever the surrounding buffer), for all window sizes 0..4096, all cursor offsets and all contents; bump/bump_in_this_line/bump_to_next_line are replaced by contracts whose precondition "count <= bytes left" is an obligation at every call site.',
-    'note': 'memory_input only (buffer_input, limit_bytes, raw_string, unescape readers not yet under contract); combinators never dereference the input (they only call rules).',
+    'note': 'Functions that read the input and are under contract with these pointer checks: the unit rules (leaf), string/istring/bytes/eol rules (str), integer rules (int), raw_string parts (raw), limit_bytes/check_bytes (limits), unescape actions (unesc), buffer_input::require/size/empty/discard (buf), memory_input::at/begin_of_line/end_of_line/line_at (memin), the uri IP-literal rules (uri), http::chunk_size and chunk_data (http). Not under contract: the remaining contrib grammars (json, abnf, http header rules: compositions of rules under contract), rematch sub-inputs beyond the C06 jobs, file/mmap/stream readers (OS and libc: trusted). Combinators never dereference the input (they only call rules). The eager http::chunk_data jobs are restricted to sizes <= 8 and labelled bounded.',
     'design': 'DESIGN.md section 5 C03',
 }
 CLAIMS['C04'] = {
